@@ -71,6 +71,13 @@ def enc(a, keep_fx=False):
     return dict(q=q, n=n, fx=fx if (keep_fx or not q) else [])
 
 
+def unlimb(fx):
+    """limbs -> doubles (for the evidence samples only)"""
+    if fx and isinstance(fx[0], int):
+        return round((fx[0] * (1 << 26) + fx[1] * LB + fx[2]) / float(1 << 39), 10)
+    return [unlimb(x) for x in fx]
+
+
 def dense(m):
     return np.asarray(m.todense()) if hasattr(m, "todense") else np.asarray(m)
 
@@ -210,7 +217,7 @@ def run(ctx):
         nexact += ex
         ctx.case(key=class_key(inp, out))
         if len(ctx.samples) < 6 and (inp["kind"], ex) not in {(s["in"]["kind"], s["exact"]) for s in ctx.samples}:
-            brief = {k: (dict(q=v["q"], n=v["n"]) if isinstance(v, dict) and v["q"] else "fixed point") if isinstance(v, dict) else v
+            brief = {k: (dict(q=v["q"], n=v["n"]) if v["q"] else dict(fixed_point=unlimb(v["fx"]))) if isinstance(v, dict) else v
                      for k, v in out.items()}
             ctx.sample({"in": inp, "exact": ex, "out": brief})
     ctx.extra["judged_exactly"] = nexact
